@@ -212,6 +212,9 @@ def run_driver(exe, cases, timeout, env=None, mem_kb=None):
         pre = []
         if mem_kb:
             pre = ["sh", "-c", "ulimit -v %d; exec \"$0\" \"$@\"" % mem_kb]
+        elif exe.endswith("model_driver"):
+            # the extracted model recurses over lists of up to 65,536 rows: give it the stack it needs
+            pre = ["sh", "-c", "ulimit -s unlimited 2>/dev/null || ulimit -s 1000000 2>/dev/null; exec \"$0\" \"$@\""]
         rc, out = run(pre + [exe], timeout, stdin="\n".join(script) + "\n", env=env)
         lines = out.split("\n")
         if lines and lines[-1] == "":
